@@ -426,4 +426,4 @@ MANIFEST = {
             "history is a new violation.",
 }
 
-MANIFEST_ADDENDUM = 'Oracle additions: 504 histories written directly against the implementation: a tensor/ndarray shared by two graphs, backward/clear of one, then out=y with an explicit constant=, a tracked in-place update, a raw write or an in-place update inside no_autodiff (refused while the other graph is alive), optionally a view dropped after the clearing and a successful or a failing re-use; then the other backward must raise InvalidBackprop or use the forward-time values.'
+MANIFEST_ADDENDUM = 'Oracle additions: 504 histories written directly against the implementation: a tensor/ndarray shared by two graphs, backward/clear of one, then out=y with an explicit constant=, a tracked in-place update, a raw write or an in-place update inside no_autodiff (refused while the other graph is alive), optionally a view dropped after the clearing and a successful or a failing re-use; then the other backward must raise InvalidBackprop or use the forward-time values. Round 6: histories in which the second graph holds the shared tensor as the operand of an in-place update (the in-place machinery takes the lock).'
